@@ -262,3 +262,68 @@ def c_dispatch(c, op, w, s, shape):
             "slices the field by the domain's bit length: a wider domain makes Boolector raise)",
             Implies(truth, And(*[Implies(lo <= hi, And(lo >= lo_t, hi <= hi_t)) for lo, hi in dom])),
             info="domain %r" % (dom,), assume=False)
+
+
+# ---- initial domains --------------------------------------------------------------------------------------------
+@contract("bounds.initial_domain.scalar", ["C14"], ["vsc.model.variable_bound_scalar_model.VariableBoundScalarModel.__init__"],
+          lambda tier, seed: [(w, s) for w in widths(tier, seed) for s in (False, True)])
+def c_init_scalar(c, w, s):
+    from vsc.model.field_scalar_model import FieldScalarModel
+    from vsc.model.variable_bound_scalar_model import VariableBoundScalarModel
+    b = VariableBoundScalarModel(FieldScalarModel("f", w, s, True))
+    lo, hi = (-(1 << (w - 1)), (1 << (w - 1)) - 1) if s else (0, (1 << w) - 1)
+    c.prove("a field no constraint mentions ranges over its whole type (initial domain == type range)",
+            [list(r) for r in b.domain.range_l] == [[lo, hi]])
+    c.prove("isEmpty() is false for a type with more than one value", b.isEmpty() == (w == 1 and False))
+
+
+@contract("bounds.initial_domain.enum", ["C14"], ["vsc.model.variable_bound_enum_model.VariableBoundEnumModel.__init__"],
+          lambda tier, seed: [(k,) for k in (1, 2, 3, 4)], max_paths=5000,
+          note="enum initial domain: enumerator lists of length 1..4 with symbolic distinct values in any declaration order")
+def c_init_enum(c, k):
+    from vsc.model.enum_field_model import EnumFieldModel
+    from vsc.model.variable_bound_enum_model import VariableBoundEnumModel
+    es = [c.fresh_int("e", -(1 << 31), (1 << 31) - 1) for _ in range(k)]
+    c.assume(And(*[es[i] != es[j] for i in range(k) for j in range(i + 1, k)]))
+    b = VariableBoundEnumModel(EnumFieldModel("e", list(es), True))
+    dom = _ranges(b)
+    v = c.fresh_int("v")
+    c.prove("initial domain of an enum field == its enumerator set (forall v)", Iff(member(v, dom), Or(*[v == e for e in es])))
+    c.prove("initial domain is ascending and disjoint whatever the declaration order (every propagator assumes ordered ranges)",
+            sorted_disjoint(dom))
+
+
+@contract("bounds.enum_family", ["C14"],
+          ["vsc.model.variable_bound_enum_model.VariableBoundEnumModel.__init__", "vsc.visitors.variable_bound_visitor.VariableBoundVisitor.visit_enum_field",
+           "vsc.model.variable_bound_in_propagator.VariableBoundInPropagator.propagate"],
+          lambda tier, seed: [(i,) for i in range(24 if tier != "thorough" else 120)], kind="bounded",
+          bound="enum classes of 4 enumerators with every declaration order of the values {1,2,4,16} x every non-empty subset used in an "
+                "`inside` constraint; inferred domain compared with the feasible set")
+def c_enum_family(c, idx):
+    import itertools as it
+    import vsc
+    from enum import IntEnum
+    from vsc.visitors.variable_bound_visitor import VariableBoundVisitor
+    perms = list(it.permutations([1, 2, 4, 16]))
+    vals = perms[idx % len(perms)]
+    E = IntEnum("E", {"A": vals[0], "B": vals[1], "C": vals[2], "D": vals[3]})
+    members = list(E)
+    for r in (1, 2, 3):
+        for sub in list(it.combinations(members, r))[idx // len(perms)::5] or [tuple(members[:r])]:
+            @vsc.randobj
+            class P(object):
+                def __init__(self):
+                    self.op = vsc.rand_enum_t(E)
+
+                @vsc.constraint
+                def c(self):
+                    self.op.inside(vsc.rangelist(*sub))
+            o = P()
+            m = o.get_model()
+            m.set_used_rand(True, 0)
+            bv = VariableBoundVisitor()
+            bv.process([m], [])
+            dom = [b for f, b in bv.bound_m.items() if f.name == "op"][0].domain.range_l
+            miss = [int(e) for e in sub if not any(lo <= int(e) <= hi for lo, hi in dom)]
+            c.check("C14: every enumerator admitted by the `inside` constraint lies in the inferred domain", not miss,
+                    info="values %r inside %r domain %r" % (vals, [int(e) for e in sub], dom))
